@@ -328,6 +328,12 @@ def good_answer(kind, prompt):
                     "ask price": 'bot inform price\n  "It is free."',
                     "ask capabilities": 'bot inform capabilities\n  "I can talk."'}[intent]
             return "  " + intent + "\n" + flow
+    if kind == "v2_flow_continuation":
+        p = prompt if isinstance(prompt, str) else json.dumps(prompt)
+        # one turn continues with a bot flow that is NOT defined: the library then asks the LLM for
+        # the flow itself (GenerateFlowFromNameAction -> AddFlowsAction)
+        if p.rstrip().endswith("bot intent:") and 'user said "tell me a joke"' in p.split("# This is the current conversation")[-1]:
+            return "bot tell a joke\nbot action: bot tell a joke"
     return GOOD.get(kind, GOOD["other"])
 
 
@@ -750,6 +756,11 @@ def coq_answer(a):
     raise ValueError(k)
 
 
+class _Runaway(BaseException):
+    """Raised by the parser oracle when the shrink loop runs longer than its number of lines
+    (a BaseException, so that the loop's own `except Exception` cannot swallow it)."""
+
+
 class ImplHelpers:
     """The real code behind each modelled helper.  The per-call post-processing lives inside the
     action methods, so those are called directly (real prompt rendering, scripted LLM)."""
@@ -775,6 +786,8 @@ class ImplHelpers:
         llm.subst = {}
         try:
             return ("ok", self.loop.run_until_complete(coro_fn(app.llm_generation_actions, app)))
+        except _Runaway:
+            return ("raise", "NonTermination")
         except Exception as e:
             return ("raise", type(e).__name__)
 
@@ -874,7 +887,12 @@ class ImplHelpers:
             import nemoguardrails.actions.llm.generation as G1
             wrapped = self.validate_wrapped
 
+            budget = [len(s.split("\n")) + 3]
+
             def fake_parse(filename, content=None, **kw):
+                budget[0] -= 1
+                if budget[0] < 0:          # more iterations than lines: the loop does not shrink
+                    raise _Runaway()
                 n = len(content.split("\n")) - (1 if wrapped else 0)
                 if n in lens:
                     return {"flows": [{}]}
@@ -1002,7 +1020,11 @@ def judge(case, r, kind_at):
     ks = sorted(case.get("subst", {}), key=int)
     calls = {str(c["i"]): c for c in r.get("calls", [])}
     first = ks[0] if ks else None
-    kind = (calls.get(first, {}).get("kind") if first is not None else None) or (kind_at.get(case["mode"], {}).get(first) if first else None) or ("every" if case.get("every") else "?")
+    kind = (calls.get(first, {}).get("kind") if first is not None and len(ks) == 1 else None)
+    if kind is None and r.get("calls"):
+        hostile = [c for c in r["calls"] if c["hostile"]]
+        kind = hostile[-1]["kind"] if hostile else None       # the last hostile output before the failure
+    kind = kind or (kind_at.get(case["mode"], {}).get(first) if first else None) or "?"
     if f:
         if f["kind"] == "evaluated":
             # documented feature: a bot INTENT of the form `$name` is replaced by the context variable
@@ -1115,7 +1137,12 @@ def run(tier, seed, replay=None):
     # ---- (X2) end to end
     t0 = time.time()
     base = [{"mode": m, "turns": TURNS[m]} for m in MODES]
-    cases = base + corpus_e2e + ([] if replay else gen_cases(rng, tier))
+    generated = [] if replay else gen_cases(rng, tier)
+    frac = float(os.environ.get("VERIF_C17_E2E_FRACTION", "1") or 1)    # development aid only (default: everything)
+    if frac < 1:
+        generated = [c for i, c in enumerate(generated) if rng.random() < frac]
+        out.notes.append(f"VERIF_C17_E2E_FRACTION={frac}: only a sample of the generated conversations was run")
+    cases = base + corpus_e2e + generated
     results = run_e2e(cases)
     kind_at = {}
     for c, r in zip(base, results[:len(base)]):
